@@ -6,7 +6,7 @@
 From Coq Require Import List Arith ZArith NArith Lia Bool.
 Import ListNotations.
 Require Import Clarabel.Base.Ops Clarabel.Base.Dyadic Clarabel.Csc.Model Clarabel.Csc.Check.
-Require Import Clarabel.Kkt.Spec Clarabel.Kkt.Model.
+Require Import Clarabel.Kkt.Spec Clarabel.Kkt.Model Clarabel.Kkt.Stmts.
 Local Open Scope nat_scope.
 
 (** literal helpers (the harness prints N numerals) *)
@@ -70,7 +70,9 @@ Definition spec_selfcheck (P A : rawZ) (shapes : list shape) (tril : bool) (Kspe
   let b2 := forallb (fun e => pattern Pd Ad shapes tri (erow e) (ecol e)) es
             && N.eqb (fmt_code (check_format Kspec)) 0   (* strictly increasing rows: no position twice *)
             && (cells =? length es) && forallb (fun j => pattern Pd Ad shapes tri j j) (seq 0 dim) in
-  (bit b1 512 + bit b2 1024)%N.
+  (* hypothesis of the Triu refinement step: every column is filled in non-decreasing row order *)
+  let b3 := tril || buckets_sortedb dim es in
+  (bit b1 512 + bit b2 1024 + bit b3 2048)%N.
 
 Definition d_spec (P A : rawZ) (shapes : list shape) (tril : bool)
            (K : rawZ) (mp : maps) (ds : list Z) : N :=
